@@ -11,6 +11,9 @@ TABLES = {
     "default + two-component mount": (True, ["x/y"], ["x", "x/y", "x/y/f", "x/z", "o"]),
     "no default, two mounts": (False, ["m", "k"], ["m", "m/f", "m/d/g", "k", "k/f"]),
     "default + confusable sibling mounts": (True, ["a", "ab"], ["a", "a/f", "ab", "ab/f", "abc", "a/b/f"]),
+    # the default store already holds entries below the mount points: they are shadowed and must not show in any read
+    "default with shadowed content + one mount": ("shadowed", ["m"], ["m", "m/f", "m/d", "m/d/g", "o", "o/f"]),
+    "default with shadowed content + two-component mount": ("shadowed", ["x/y"], ["x", "x/y", "x/y/f", "x/z", "o"]),
 }
 
 
@@ -24,7 +27,12 @@ def make_factory(kind, with_default, mounts):
             d = tempfile.mkdtemp(prefix="liquer_bounded_")
             dirs.append(d)
             return FileStore(d)
-        root = MountPointStore(mk() if with_default else None)
+        default = mk() if with_default else None
+        if with_default == "shadowed":
+            for p in mounts:
+                default.store(p + "/hidden.txt", b"shadowed", {})
+                default.store(p + "/d/hidden2.txt", b"shadowed", {})
+        root = MountPointStore(default)
         subs = []
         for p in mounts:
             s = mk()
